@@ -1,6 +1,7 @@
 package main
 
 import (
+	"strings"
 	"time"
 
 	"pgregory.net/rapid"
@@ -66,7 +67,25 @@ func c16Main(e *Env) (*res.Result, error) {
 		bf := rapid.SampledFrom(forms).Draw(t, "baseform")
 		d := c.RouterDocWithSecurity()
 		d.Servers = bf.Servers
-		return PkgSpec{Doc: d, Cfg: inproc.Config{BasePath: bf.Flag, DoNotEdit: true, Cors: rapid.Bool().Draw(t, "cors")}, Meta: map[string]any{"baseform": bf.Name}}
+		// a root-level single-variable template can match the spec path (any method)
+		if rapid.IntRange(0, 2).Draw(t, "catch_all") == 0 {
+			hasRootVar := false
+			for tpl := range d.Paths {
+				if strings.HasPrefix(tpl, "/{") && strings.Count(strings.TrimSuffix(tpl, "/"), "/") == 1 {
+					hasRootVar = true
+				}
+			}
+			if !hasRootVar {
+				v := c.PlainName("v", "catchall")
+				op := func() *specgen.Operation {
+					return &specgen.Operation{Parameters: []*specgen.Parameter{{Name: v, In: "path", Required: true, Schema: &specgen.Schema{Type: "string"}}}, Responses: specgen.EmptyResponses()}
+				}
+				d.Paths["/{"+v+"}"] = &specgen.PathItem{Get: op(), Put: op(), Delete: op()}
+			}
+		}
+		cfg := inproc.Config{BasePath: bf.Flag, DoNotEdit: true, Cors: rapid.Bool().Draw(t, "cors")}
+		cfg.SpecHandlerName = rapid.SampledFrom([]string{"openapi.yaml", "openapi.yaml", "spec.json", "docs/openapi.yaml", ".openapi.yaml"}).Draw(t, "spec_handler_name")
+		return PkgSpec{Doc: d, Cfg: cfg, Meta: map[string]any{"baseform": bf.Name}}
 	})
 	return compiledMain(e, "C16", specs, false, 20*time.Minute)
 }
